@@ -95,7 +95,7 @@ def run_case(case, ctx):
     ev = {"kind": case["op"], "c": p, "exc": ""}
     nsp = sum(1 for t in p["ty"] if t in ("input", "bb_output"))
     if case["op"] == "model_count":
-        assum = {p["names"][i - 1]: b for i, b in case["assum"]}
+        assum = {p["names"][i - 1]: (int(b) if (len(case["assum"]) + i) % 2 else b) for i, b in case["assum"]}   # bool or 0/1
         ev["assum"] = case["assum"]
         ev["nontrivial"] = bool(assum) or nsp >= 2
         try:
@@ -124,7 +124,7 @@ def run_case(case, ctx):
         except Exception as e:
             ev["exc"], ev["num"], ev["den"] = type(e).__name__, 0, 1
     else:  # dimacs
-        assum = {p["names"][i - 1]: b for i, b in case["assum"]}
+        assum = {p["names"][i - 1]: (int(b) if (len(case["assum"]) + i) % 2 else b) for i, b in case["assum"]}   # bool or 0/1
         ev["assum"] = case["assum"]
         ev["nontrivial"] = True
         cap = tempfile.mkdtemp(prefix="cap_", dir=ctx.scratch)
